@@ -24,6 +24,26 @@ func checkC07(p *Prog, r *Report) {
 	rID := r.Rule("id-fresh-and-safe", "the ID is a base ≤ 36 / hex rendering of a random draw made in the handler")
 	rPrec := r.Rule("c2-precedence", "for every combination of sources the callback address is the first non-empty of parameter, header, IDNA(Host), SNI(+port unless 443)")
 	rRead := r.Rule("reread-per-request", "a configured template file is read and parsed on every request; handlers keep no state")
+	/* "For every request to /c": the route is the bare path, whatever the
+	method (a POST carrying c2= as a form field is a request to /c too). */
+	{
+		rRoute := r.Rule("route", "the script handler is registered for /c with no method or host restriction")
+		nr := 0
+		for _, rt := range muxRoutes(p) {
+			if nil == rt.Handler || "scriptHandler" != rt.Handler.Name() {
+				continue
+			}
+			nr++
+			if "/c" == rt.Pattern {
+				rRoute.OK("route /c", rt.Pos, "registered for every method")
+			} else {
+				rRoute.Bad("route /c", rt.Pos, "the script handler is registered as %q: requests to /c which that pattern does not match (another method, say) get no script", rt.Pattern)
+			}
+		}
+		if 0 == nr {
+			rRoute.Unproven("route /c", token.NoPos, "no route leads to the script handler")
+		}
+	}
 	rErr := r.Rule("no-script-on-error", "body bytes reach the client only from a fresh buffer after template, address and execution succeeded")
 
 	checkC07Template(p, r, rTmpl)
@@ -390,6 +410,22 @@ func checkC07Precedence(p *Prog, r *Report, ru *Rule) {
 	} else {
 		ru.Bad(fnName(fn)+":key", fn.Pos(), "the parameter/header is not read with the constant %q", c2)
 	}
+	/* "In IDNA-ASCII form": the plain conversion (idna.ToASCII, i.e. the
+	Punycode profile).  A profile put together with idna.New, or one of the
+	validating profiles (Lookup, Display, Registration), also maps
+	characters (ß to ss) and refuses names (hyphens in places, long
+	labels): a Host the plain conversion passes gets another address, or
+	no script. */
+	eachInstr(fn, func(i ssa.Instruction) {
+		c, ok := i.(*ssa.Call)
+		if !ok || "(*golang.org/x/net/idna.Profile).ToASCII" != calleeName(c.Common()) {
+			return
+		}
+		if "Punycode" == globalLoadName(c.Common().Args[0]) {
+			return
+		}
+		ru.Bad(fnName(fn)+":idna-profile", posOf(c), "the Host is converted with an IDNA profile other than the plain Punycode one (%s): it maps or refuses names which idna.ToASCII passes unchanged", rootsString(valueRoots(c.Common().Args[0], nil)))
+	})
 	/* The port used for the SNI case comes from the bound socket. */
 	eachInstr(fn, func(i ssa.Instruction) {
 		c, ok := i.(*ssa.Call)
